@@ -7,6 +7,7 @@ WT=$ROOT/$ID; S=$WT/SEED/$K
 export GOFLAGS=-mod=mod GOPROXY=off GOSUMDB=off GOTOOLCHAIN=local
 [ -f $S/patch.diff ] || { echo "no $S/patch.diff"; exit 2; }
 DEST=$(grep -o 'copy `demo_test.go` to `[^`]*`' $S/README.md | head -1 | sed 's/.*to `\(.*\)`/\1/')
+[ -n "$DEST" ] || DEST=$(grep -o 'copy to `[^`]*_test.go`' $S/README.md | head -1 | sed 's/.*to `\(.*\)`/\1/')
 CMD=$(grep -o '`go test [^`]*-run [^`]*`' $S/README.md | head -1 | tr -d '`')
 [ -n "$CMD" ] || CMD=$(grep -E '^ +go test .*-run ' $S/README.md | head -1 | sed 's/^ *//')
 [ -n "$DEST" ] && [ -n "$CMD" ] || { echo "cannot parse demo location/command from README ($DEST | $CMD)"; exit 2; }
